@@ -34,7 +34,7 @@ TECHNIQUE = 'runtime monitoring: hooked-state recorder + differential oracle (pa
 
 
 def plan(tier, seed):
-    ndocs = 48 if tier == 'quick' else 1800
+    ndocs = 160 if tier == 'quick' else 1800
     shards = 16 if tier == 'quick' else 48
     specs = [{'kind': 'gen', 'docs': ndocs // shards, 'gshard': s} for s in range(shards)]
     specs.append({'kind': 'corpus'})
@@ -276,6 +276,17 @@ def run_gen(spec, res):
         wild = [p for p, n in doc.walk() if n.meta.get('wild')] + \
             [p + (i,) for p, n in doc.walk() if n.meta.get('xsi_type') for i in range(len(n.children))]
         run_doc(res, xmlschema, rec, schema, fam, version, text, full_prefixes, nsmap, wild, rng, spec['tier'])
+        # the same document in a "version 2" namespace: same paths, same prefixes, other URIs. Results must not
+        # depend on what was looked up before in this process (selectors / lookups are cached process-wide).
+        ns = D.FAMILY_NS[fam]
+        key2 = (fam, version, 'v2')
+        if key2 not in schemas:
+            schemas[key2] = type(schema)(D.FAMILIES[fam].replace(ns, ns + ':v2'))
+        prefixes2 = {(k + ':v2' if k == ns else k): v for k, v in prefixes.items()}
+        nsmap2 = {p: (u + ':v2' if u == ns else u) for p, u in nsmap.items()}
+        res.count('twin_namespace:documents')
+        run_doc(res, xmlschema, rec, schemas[key2], fam + ':v2', version, text.replace(ns, ns + ':v2'), prefixes2, nsmap2,
+                wild, rng, spec['tier'])
         # one single-fault variant for the error comparison
         faults = [(p, k) for p, n in doc.walk() for k in D.faults_at(doc, p)]
         if faults:
@@ -366,7 +377,11 @@ def replay(case):
     else:
         rec = Recorder()
         cls = xmlschema.XMLSchema10 if case['version'] == '1.0' else xmlschema.XMLSchema11
-        schema = cls(D.FAMILIES[case['family']])
+        fam0 = case['family'].split(':')[0]
+        xsd = D.FAMILIES[fam0]
+        if case['family'].endswith(':v2'):
+            xsd = xsd.replace(D.FAMILY_NS[fam0], D.FAMILY_NS[fam0] + ':v2')
+        schema = cls(xsd)
         import re
         text = case['doc']
         prefixes = {}
